@@ -506,6 +506,14 @@ def run(ctx):
     for B in (Bp, Bt, Bi):
         if B is not None:
             check_casts(ctx, B, 'C08.4-cast', include_float=False)
+    # ... and in whatever the three conversions call into (term accessors such as as_integer, their helpers)
+    roots_ = [q for q in ctx.F.bodies if q.split('::{')[0] in (CM + '::from_term', CM + '::to_term', CM + '::into_term')]
+    done_ = {B.path for B in (Bp, Bt, Bi) if B is not None}
+    extra_ = sorted(q for q in ctx.P.reachable_from(roots_) if q not in done_ and ctx.F.bodies[q]['crate'] in ('erltf', 'edp_client')
+                    and ctx.F.bodies[q]['kind'] in ('Fn', 'AssocFn', 'Closure') and '::clone::Clone>::clone' not in q)
+    for q in extra_:
+        check_casts(ctx, ctx.P.B(q), 'C08.4-cast', include_float=False)
+    ctx.info_note('C08.4-cast also scanned %d functions the conversions call into: %s' % (len(extra_), [x.rsplit('::', 1)[1] for x in extra_][:8]))
 
     # ---- clause 5: PANIC (indexing in from_term) ----------------------------------
     ctx.rule('C08.5-index', 'every elements[k] / elements[k..] in from_term is dominated by a guard proving k < len (k <= len for ranges)', floor=90)
